@@ -343,7 +343,7 @@ class OwnMirror:
                 del self.kids[x]
 
     def would_cycle(self, o):
-        if o[0] != "a":
+        if o[0] not in "ai":
             return False
         p, c = self.var[int(o[1]) % 4], self.var[int(o[2]) % 4]
         return p is not None and c is not None and p in self.reach([c])
@@ -369,6 +369,11 @@ class OwnMirror:
                 if self.par[c] == p:
                     self.par[c] = None
                 del self.kids[p][j]
+        elif k == "i":
+            p, c = self.var[x], self.var[w]
+            if p is not None and c is not None and a[2] < len(self.kids[p]):
+                self.kids[p].insert(a[2], c)
+                self.par[c] = p
         elif k == "e":
             p, e = self.var[x], self.var[w]
             if p is not None and e is not None and e in self.kids[p]:
@@ -436,7 +441,7 @@ def own_history(rng, n):
                 w = rng.choice(live)
                 if rng.random() < 0.5:
                     v = rng.choice(live)
-            o = ("n%d" % v if r < 0.22 else "a%d%d" % (v, w) if r < 0.47 else "r%d%d" % (w, j) if r < 0.53 else "e%d%d" % (v, w) if r < 0.57 else "c%d" % w if r < 0.61
+            o = ("n%d" % v if r < 0.22 else "a%d%d" % (v, w) if r < 0.42 else "i%d%d%d" % (v, w, j % 4) if r < 0.47 else "r%d%d" % (w, j) if r < 0.53 else "e%d%d" % (v, w) if r < 0.57 else "c%d" % w if r < 0.61
                  else "k%d%d%d" % (v, w, j) if r < 0.73 else "s%d%d" % (v, w) if r < 0.80 else "d%d" % w if r < 0.90 else "u%d%d" % (v, w))
             if not m.would_cycle(o):
                 break
@@ -601,7 +606,7 @@ def gen(rng, tier):
     for i in range(300 if quick else 20000):
         cases.append([own_history(rng, rng.choice([3, 6, 12, 25, 40])) for _ in range(2)])
     cases.append(["own n0 n1 a01 d0", "own n0 n1 a01 d1 k100 u21 d0", "own n0 n1 n2 a01 a21 d0 u31 d2", "own n0 n1 a01 a01 r00 u21 r00 u21",
-                  "own n0 n1 n2 a12 a01 k301 d0 d1 u23", "own n0 n1 a01 c0 u21", "own n0 n1 n2 a02 a12 e02 u32 d1 u32", "own n0 n1 a01 a01 e01 u21 e01 e01", "own d0 a01 r00 c0 k010 s01 u01 n0 u10"])
+                  "own n0 n1 n2 a12 a01 k301 d0 d1 u23", "own n0 n1 a01 c0 u21", "own n0 n1 n2 a01 i020 i021 i025 u32 d0 u32", "own n0 n1 a01 i010 r01 u21 r00 u21", "own n0 n1 n2 a02 a12 e02 u32 d1 u32", "own n0 n1 a01 a01 e01 u21 e01 e01", "own d0 a01 r00 c0 k010 s01 u01 n0 u10"])
     # 8. deeply nested documents built inside the harness / driver (kind 0: closed, 3: closed around the text "x" — text() walks the whole chain, 1: closed then a mismatched end tag so that
     #    the tree is destroyed inside decode, 2: unclosed)
     for n in ([0, 1, 2, 12, 13, 1000, 300000] if quick else [0, 1, 2, 12, 13, 1000, 50000, 300000, 1000000]):
@@ -622,6 +627,12 @@ def distribution(cases):
             t = l.split()
             op = t[0]
             d["ops_by_kind"][op] = d["ops_by_kind"].get(op, 0) + 1
+            if op == "own":
+                h = d.setdefault("own_history_ops", {})
+                for x in t[1:]:
+                    h[x[0]] = h.get(x[0], 0) + 1
+                k = "1-6" if len(t) <= 7 else "7-12" if len(t) <= 13 else "13-25" if len(t) <= 26 else "26+"
+                d.setdefault("own_history_len", {})[k] = d.get("own_history_len", {}).get(k, 0) + 1
             if op == "deep":
                 d.setdefault("deep_nesting_levels", {})[t[1]] = d.get("deep_nesting_levels", {}).get(t[1], 0) + 1
             if op == "dec":
@@ -1022,7 +1033,7 @@ LEVEL_TEXT = ("Proved in Lean 4 about the executable transcription of Xml::decod
               "desc / mut run the real library under ASan (about half of ~1000 ops of each kind per quick run reach a node; the expat "
               "reference has an opinion on ~5-7% of them, the rest is model-vs-code plus the parent-flag oracle). "
               "(2e) xml_parent_never_dangles / xml_handle_parent_live — on the OWNERSHIP model (AslModel/XmlOwn.lean: nodes with a stored count, an owning "
-              "child array and a raw parent pointer; orphan(), remove(int), remove(Xml), clear(), operator<<(Xml), child(i), parent(), handle assignment "
+              "child array and a raw parent pointer; orphan(), insert(i, e), remove(int), remove(Xml), clear(), operator<<(Xml), child(i), parent(), handle assignment "
               "(acquire before release) and destruction, ~_Xml's orphan-then-release loop, all transcribed; four handle variables): after EVERY "
               "history, every non-null parent pointer designates a node that is allocated, not destroyed, and holds the pointing node in its child "
               "array — also for a child shared by two elements or appended twice, and whatever dies first. Tied by the K op `own` (600 random + 7 "
@@ -1042,7 +1053,7 @@ LEVEL_NOTE = ("Trusted: Lean kernel; the reading that produced the transcription
               "The decoder model has no heap, no reference count and no destructor: handle lifetimes (survivor, descend, detachedBy) are postulates "
               "of THAT model checked by K only; the separate ownership model (XmlOwn, op `own`) has them and proves 'every parent pointer is null or "
               "a live container of the node' over all histories of its mutators, but it starts from nodes made with Xml(tag), not from a decoded "
-              "tree, and does not cover put, insert, clone, Xml(tag, Array<Xml>). NOT proved there (ownership_counts_full: computed by "
+              "tree, and does not cover put, clone, Xml(tag, Array<Xml>). NOT proved there (ownership_counts_full: computed by "
               "the driver at every step, ASan/LSan on the code): stored count = handles + owning slots, no use of a dead node, every node freed once; "
               "a cycle of handles (a << a) leaks by construction, the generator builds none. KNOWN FINDING raw-children-array: mutating the array handed "
               "out by the non-const children() (remove/clear/resize/element assignment) runs no Xml code, the removed child keeps its "
